@@ -675,3 +675,91 @@ def propagate_conventions(repo, it_plain):
         if isinstance(n, ast.Assign) and isinstance(n.targets[0], ast.Subscript) and isinstance(n.targets[0].value, ast.Name) and n.targets[0].value.id == bcname:
             it_plain.exec(n, fr2)
     return conv, rows, [bc.get(k) for k in range(3)], (mod, mod.where(f))
+
+
+# ---------------------------------------------------------------------------------------------- Kelvin closed form from exact solutions
+def kelvin_from_exact_solutions(chk, repo, rule, seed, tier, love_refs=True):
+    """Homogeneous incompressible sphere, static limit, complex rigidity.  The three regular columns of the repository's fundamental matrix (exact solutions:
+    each is shown here to solve the COMPILED solver's SolidStaticIncompressible system with g = 4 pi G rho r / 3) are combined by the solver's tidal surface
+    condition; the Love numbers extracted the way find_love_cf does it are compared with the Kelvin closed form
+        k_l = 3/(2(l-1)) / (1 + m_l),  h_l = (2l+1) k_l / 3,  l_l = k_l / l,  m_l = (2l^2+4l+3) mu / (l rho g R)
+    and with love1d.complex_love_general / effective_rigidity_general (the homogeneous model of C12).  This is the property's closed form as an exact identity
+    for the equations, boundary condition and extraction the solver implements; what remains undecided is only that the numerical integration converges to
+    the exact solution."""
+    from fractions import Fraction as F
+    mod = repo.by_path('TidalPy/radial_solver/matrix/fundamental_solid.py')
+    fg = need_func(mod, 'fundamental_matrix_generic')
+    mo = repo.by_path('TidalPy/RadialSolver/derivatives/odes.pyx')
+
+    def expr_hook(itp, e, fr):
+        if isinstance(e, ast.Subscript) and isinstance(e.value, ast.Attribute) and e.value.attr == 'shape':
+            return 1
+        if isinstance(e, ast.Call) and ast.unparse(e.func) in ('np.ones', 'np.zeros') and e.args and isinstance(e.args[0], ast.Name) and e.args[0].id == 'num_shells':
+            return X.ONE if e.func.attr == 'ones' else X.ZERO
+        return NotImplemented
+    it = Interp(repo, hooks={'expr': expr_hook, 'drop_full_slices': True})
+    conv, rows, bcv, mp_ = propagate_conventions(repo, Interp(repo, hooks={'drop_full_slices': True}))
+    r = X.atom('r', 'pos'); mu = X.atom('mu', 'complex'); rho = X.atom('rho', 'pos'); R = X.atom('R_planet', 'pos')
+    Gc = X.lift(it.global_name(mod, 'G')); piv = X.atom('pi', 'pos')
+    d = X.Decider(seed=seed + 37, k=2 if tier == 'quick' else 5)
+    ml = repo.by_path('TidalPy/RadialSolver/love.pyx'); fl = need_func(ml, 'find_love_cf')
+    m1 = repo.by_path('TidalPy/tides/love1d.py')
+
+    def det3(M):
+        return (M[0][0] * (M[1][1] * M[2][2] - M[1][2] * M[2][1]) - M[0][1] * (M[1][0] * M[2][2] - M[1][2] * M[2][0]) + M[0][2] * (M[1][0] * M[2][1] - M[1][1] * M[2][0]))
+    for lv in ((2, 3, 4) if tier == 'quick' else (2, 3, 4, 5, 6, 8, 10)):
+        gex = 4 * piv * Gc * rho / 3 * r
+        out = it.call(mod, fg, [r, mu, rho, gex], {'order_l': lv})
+        Ysv = [[X.lift(out[0].get((i, j))) for j in range(6)] for i in range(6)]
+        # TS72 components of every column through propagate's own conversion
+        Yts = [[conv[k][1] * Ysv[conv[k][0]][j] for j in range(6)] for k in range(6)]
+        pt = d.points[0]
+        regular = []
+        for j in range(6):
+            expo = None
+            for k in range(6):
+                if not d.is_zero(Yts[k][j]):
+                    expo = pt.fev(r * X.diff(Yts[k][j], 'r') / Yts[k][j]).real; break
+            if expo is not None and expo > 0: regular.append(j)
+        if len(regular) != 3:
+            raise AnalysisError(f'{mod.where(fg)}: expected three columns regular at the centre, found {regular}')
+        # (i) each regular column solves the compiled solver's static incompressible system
+        P = SM.params(l=lv); P['r'] = r; P['rho'] = rho; P['mu'] = mu; P['fpG'] = 4 * piv * Gc; P['g'] = gex
+        dy, yv, fnode = SM.extract_rhs(repo, mo, SM.CLASSES[('solid', True, True)], P, 6)
+        A = SM.matrix_from(dy, 6)
+        bad = []
+        for j in regular:
+            for i in range(6):
+                acc = X.ZERO
+                for k in range(6):
+                    acc = acc + A[i][k] * Yts[k][j]
+                if not d.equal(X.diff(Yts[i][j], 'r'), acc):
+                    bad.append(f'column {j}, component y{i + 1}')
+        chk.ob(rule, f'l={lv}: the three regular closed-form solutions (fundamental matrix columns {regular}) solve SolidStaticIncompressible of the compiled solver in a homogeneous sphere', not bad,
+               f'not solutions: {bad[:4]}', mo.where(fnode), key=f'{rule}|exact solutions|l={lv}', method='symbolic differentiation + GF(p^2) PIT')
+        # (ii) surface condition and extraction
+        YR = [[X.subst(Yts[k][j], {'r': R}) for j in regular] for k in range(6)]
+        M = [YR[1], YR[3], YR[5]]
+        b = [X.ZERO, X.ZERO, X.const(2 * lv + 1) / R]
+        Dt = det3(M)
+        cs = []
+        for j in range(3):
+            Mj = [[(b[i] if c == j else M[i][c]) for c in range(3)] for i in range(3)]
+            cs.append(det3(Mj) / Dt)
+        ysurf = [YR[k][0] * cs[0] + YR[k][1] * cs[1] + YR[k][2] * cs[2] for k in range(6)]
+        gR = X.subst(gex, {'r': R})
+        outl = Arr('love')
+        Interp(repo).call(ml, fl, [outl, Arr('s', default=lambda k: ysurf[k]), gR])
+        k_, h_, l_ = outl.store[0], outl.store[1], outl.store[2]
+        m_l = X.const(F(2 * lv * lv + 4 * lv + 3, lv)) * mu / (rho * gR * R)
+        kref = X.const(F(3, 2 * (lv - 1))) / (1 + m_l)
+        ok = d.equal(k_, kref) and d.equal(h_, (2 * lv + 1) * kref / 3) and d.equal(l_, kref / lv)
+        chk.ob(rule, f'l={lv}: exact solution + tidal surface condition (y2, y4, y6) = (0, 0, (2l+1)/R) + find_love_cf gives the Kelvin closed form k, h = (2l+1)k/3, l = k/l (complex rigidity)', ok,
+               '' if ok else f'k: {d.describe(k_, kref)}', ml.where(fl), key=f'{rule}|kelvin|l={lv}', method='Cramer solve of the surface system + GF(p^2) PIT')
+        if love_refs:
+            mu0 = X.atom('mu_static', 'pos')
+            er = Interp(repo).call(m1, need_func(m1, 'effective_rigidity_general'), [mu0, gR, R, rho], {'order_l': lv})
+            kk = Interp(repo).call(m1, need_func(m1, 'complex_love_general'), [1 / mu, mu0, er], {'order_l': lv})
+            ok = d.equal(k_, kk)
+            chk.ob(rule, f'l={lv}: the same k equals love1d.complex_love_general(J = 1/mu, mu_static, effective_rigidity_general(...)) (the homogeneous model used for global dissipation)', ok,
+                   '' if ok else d.describe(k_, kk), m1.where(need_func(m1, 'complex_love_general')), key=f'{rule}|love1d|l={lv}', method='GF(p^2) PIT')
